@@ -13,7 +13,8 @@ CONFIG = {
     "rule": "the REAL agreement.voteTracker is driven through handle(voteAcceptedEvent) on (a) EVERY vote sequence of length L "
             "(quick 5, thorough 6) over 3 senders x 2 values (4, thorough 6 per-sender weight vectors x thresholds 2,3) and 2 senders x 3 values "
             "(3 weight vectors x thresholds 2,3); thorough also 4 senders x 2 values length 6 (2 weight/threshold combinations) and 3x3 length 5, "
-            "rotating over the steps soft/cert/next/next+4/late/redo/down, "
+            "rotating over the steps soft/cert/next/next+4/late/redo/down and over palettes of 4-field proposal values "
+            "(OriginalPeriod, OriginalProposer, BlockDigest, EncodingDigest; 81-value universe) that differ in exactly one field, in two, three or four, incl. zero fields, "
             "(b) random sequences of length <= 200 over <= 50 senders x <= 4 values against the current consensus thresholds and small ones "
             "(honest majority / heavy equivocation / split vote / duplicates), (c) a malformed stream outside the property's domain "
             "(zero or inconsistent weights, uint64 wrap, threshold 0, propose step) for model/code correspondence only. Per vote the event "
